@@ -893,6 +893,8 @@ impl SvgElement {
             }
             "circle" | "ellipse" => &["x", "y", "x1", "y1", "x2", "y2"],
             "line" => &["x", "y", "cx", "cy", "width", "height"],
+            // drawn from `points` / `d` and moved by a transform computed from these
+            "polyline" | "polygon" | "path" => &["x", "y", "cx", "cy", "x1", "y1", "x2", "y2"],
             _ => &[],
         };
         foreign.iter().any(|a| self.has_attr(a))
